@@ -20,7 +20,7 @@ PARTIAL = []
 CORR_ONLY = [
     'np.unique (sorted distinct keys + inverse) is a parameter of the model, compared through util.array_to_groups_and_locations on every run',
     'label-depth grouping (iter_group_labels*) and multi-column keys: the model groups the key tuples; which tuple a row has is read by the harness',
-    'the string fallback of array_to_groups_and_locations for non-comparable object keys is not modelled (oracle only; see finding F52)',
+    'the string fallback of array_to_groups_and_locations for non-comparable object keys is not modelled (oracle only; see finding F52; its axis-1 and flattened-inverse repairs 2295c49 / 60e8b9c are under the strict oracle)',
     'window contents (which labels / values a window holds) are read from the real sub-containers and compared with the positions the model yields',
 ]
 RULE = ('seeded Series / Frames (all block layouts, flat and hierarchical labels) with 1..n distinct key values (single group, all distinct), '
@@ -69,6 +69,8 @@ def rand_keys(rng, n, kind, distinct=None):
 
 def flat_index(rng, n, kind=None):
     kind = kind or rng.choice(['int', 'str', 'auto', 'date'])
+    if kind == 'year':
+        return {'kind': 'year', 'labels': [tok(np.datetime64(str(y), 'Y')) for y in rng.sample(range(1990, 2030), n)]}
     if kind == 'auto':
         return {'kind': 'auto', 'labels': [f'i:{i}' for i in range(n)]}
     if kind == 'date':
@@ -99,7 +101,8 @@ def sgroup_case(rng, n=None):
         return {'k': 'sgroup', 'dt': 'int64', 'v': [f'i:{10 * i}' for i in range(n)], 'index': index, 'name': tok('sn'),
                 'route': route, 'depth': lv}
     kind = rng.choice(KEY_KINDS)
-    index = ih_index(rng, n) if (rng.random() < 0.15 and n > 0) else flat_index(rng, n)
+    r2 = rng.random()
+    index = ih_index(rng, n) if (r2 < 0.15 and n > 0) else (flat_index(rng, n, 'year') if r2 < 0.27 else flat_index(rng, n))
     return {'k': 'sgroup', 'dt': DT_OF[kind], 'kind': kind, 'v': rand_keys(rng, n, kind), 'index': index, 'name': tok(rng.choice([None, 'sn'])),
             'route': rng.choice(['items', 'items', 'values', 'apply', 'apply_items']), 'depth': None}
 
@@ -154,8 +157,8 @@ def fgroup_case(rng, n=None, m=None):
         single = nk == 1 and rng.random() < 0.75
     else:
         # group columns by the values of one or several rows: all columns of one comparable family
-        family = rng.choice(['int', 'numf', 'numb', 'str', 'bool'])
-        fam_dts = {'int': ['int64'], 'numf': ['int64', 'float64'], 'numb': ['int64', 'bool'], 'str': ['str'], 'bool': ['bool']}[family]
+        family = rng.choice(['int', 'numf', 'numb', 'numb', 'str', 'bool', 'mixo'])
+        fam_dts = {'int': ['int64'], 'numf': ['int64', 'float64'], 'numb': ['int64', 'bool'], 'str': ['str'], 'bool': ['bool'], 'mixo': ['int64', 'str']}[family]
         dts = []
         for j in range(m):
             dts.append(dts[-1] if dts and rng.random() < 0.5 else rng.choice(fam_dts))
@@ -165,9 +168,9 @@ def fgroup_case(rng, n=None, m=None):
                 'cols': cols, 'layout': gen.rand_layout(rng, dts), 'rows': n, 'name': 'N'}
         if n == 0:
             return None
-        nk = min(n, rng.choice([1, 1, 1, 2]))
+        nk = min(n, rng.choice([1, 1, 1, 2, 2, 3]))
         keys = sorted(rng.sample(range(n), nk))
-        single = nk == 1 and rng.random() < 0.75
+        single = nk == 1 and rng.random() < 0.6
     return {'k': 'fgroup', 'spec': spec, 'axis': axis, 'keys': keys, 'single': single,
             'route': rng.choice(['items', 'items', 'values', 'apply', 'apply_items', 'paths']), 'depth': None}
 
@@ -295,8 +298,10 @@ def group_keys_ref(c):
         if multi:
             return [tuple(pyval(arrays[j][i]) for j in c['keys']) for i in range(n)], True
         return [pyval(arrays[c['keys'][0]][i]) for i in range(n)], False
-    if multi:
+    if multi and len(c['keys']) > 1:
         return [tuple(pyval(arrays[j][i]) for i in c['keys']) for j in range(m)], True
+    # one row label, also when given as a one-element list: TypeBlocks.group keeps a one-row key array out of
+    # np.unique(axis=1) (`shape[0] > 1` test), so the groups are the scalar values of that row
     return [pyval(arrays[j][c['keys'][0]]) for j in range(m)], False
 
 
@@ -387,9 +392,16 @@ def eval_gl(ctx, c, outs):
     return fails
 
 
+def build_index(spec):
+    import static_frame as sf
+    if spec['kind'] == 'year':
+        return sf.IndexYear([untok(t) for t in spec['labels']])
+    return gen.build_index(spec)
+
+
 def build_series(c):
     import static_frame as sf
-    return sf.Series(gen.col_array(c['dt'], c['v']), index=gen.build_index(c['index']), name=untok(c['name']))
+    return sf.Series(gen.col_array(c['dt'], c['v']), index=build_index(c['index']), name=untok(c['name']))
 
 
 def norm_label(lab):
@@ -493,6 +505,15 @@ def str_conflict(keys):
     return False
 
 
+def unsortable(keys):
+    """True when NumPy cannot sort these (object) key values: np.unique raises TypeError and the string fallback runs."""
+    try:
+        sorted(k for k in keys)
+        return False
+    except TypeError:
+        return True
+
+
 def eval_group(ctx, c, outs):
     import static_frame as sf
     fails = []
@@ -505,6 +526,12 @@ def eval_group(ctx, c, outs):
         fast = spec['columns']['kind'] != 'ih' and spec['index']['kind'] != 'ih' and c['single'] and not obj
         ctx.count('path_fast' if fast else 'path_generic')
         ctx.count(f'layout_blocks_{min(len(spec["layout"]), 4)}')
+    if c['k'] == 'sgroup' and c['depth'] is None and 'apply' in c['route'] and c['index']['kind'] in ('date', 'year', 'ih'):
+        ctx.count('strict_series_apply_on_' + c['index']['kind'] + '_index')
+    if c['k'] == 'fgroup' and isinstance(c['depth'], list) and c['route'] == 'labels_apply':
+        ctx.count('strict_frame_labels_multi_depth_apply')
+    if c['k'] == 'fgroup' and c['depth'] is None and c['axis'] == 1 and not c['single']:
+        ctx.count('strict_axis1_one_label_list' if len(c['keys']) == 1 else ('strict_axis1_object_rows_multi' if obj else 'axis1_multi_rows'))
     if multi:
         ctx.count('multi_key')
     if obj:
@@ -515,7 +542,8 @@ def eval_group(ctx, c, outs):
     detail = {'object': obj, 'str_conflict': obj and str_conflict(keys if not multi else [x for k in keys for x in k]),
               'tuple_key': c.get('kind') == 'tuple' or (c['k'] == 'fgroup' and c['depth'] is None and c['axis'] == 0 and
                                                         any(t.startswith('t:') for j in c['keys'] for t in c['spec']['cols'][j]['v'])),
-              'frame_labels_multi': c['k'] == 'fgroup' and isinstance(c['depth'], list)}
+              'frame_labels_multi': c['k'] == 'fgroup' and isinstance(c['depth'], list),
+              'unsortable': obj and not multi and unsortable(keys)}
     where = f'{c["k"]} {c["route"]} axis={c.get("axis", 0)} keys={c.get("keys")} depth={c["depth"]}'
     try:
         run = run_groups(c)
@@ -557,9 +585,13 @@ def eval_group(ctx, c, outs):
             what = f'members of one group have different keys: {sorted(member_keys)} (group label {lab!r})'
             break
         if lab is not None or c['route'] not in ('values', 'labels'):
+            if isinstance(lab, np.ndarray):
+                what = f'group label {lab!r} is an (unhashable) ndarray, not the key value / tuple'
+                break
             nl = norm_label(lab)
-            if multi and not isinstance(nl, tuple):
-                nl = (nl,)  # a list of one key label: scalar and 1-tuple labels are both accepted
+            if isinstance(nl, tuple) != isinstance(keys[positions[0]], tuple):
+                what = f'group label {lab!r}: the key of this grouping is {"a tuple" if multi else "a scalar"} ({keys[positions[0]]!r})'
+                break
             if hash_class(nl) not in member_keys:
                 what = f'group labelled {lab!r} holds rows with key {sorted(member_keys)}'
                 break
@@ -878,17 +910,11 @@ def classify(f):
                 and d.get('exc') == 'RuntimeError' and 'StopIteration' in d.get('msg', ''):
             return 'F55-window-array-axis1-empty-candidate'
         return None
-    if c.get('k') == 'sgroup' and c['route'] in ('apply', 'apply_items') and c['depth'] is None and c['index']['kind'] in ('date', 'ih'):
-        return 'F54-series-group-apply-index-class'
     if d.get('tuple_key') and d.get('exc') in ('ValueError', 'IndexError'):
         return 'F23-group-object-tuple-keys'
-    if d.get('frame_labels_multi') and d.get('exc') == 'TypeError' and f.case.get('route') == 'labels_apply':
-        return 'F53-frame-group-labels-multi-depth-apply'
     if c.get('k') == 'fgroup' and c['axis'] == 1 and c['depth'] is None and not c['single'] and len(c['keys']) == 1 \
-            and d.get('exc') in ('ValueError', 'IndexError'):
-        return 'F56-group-axis1-one-label-list'
-    if c.get('k') == 'fgroup' and c['axis'] == 1 and c['depth'] is None and not c['single'] and len(c['keys']) >= 2 and d.get('object'):
-        return 'F57-group-axis1-object-rows-fallback'
+            and d.get('unsortable') and d.get('exc') == 'IndexError':
+        return 'F68-group-axis1-one-label-list-unsortable-row'
     if d.get('object') and d.get('str_conflict') and (not d.get('exc') or (d.get('exc') == 'ErrorInitIndexNonUnique' and 'apply' in c.get('route', ''))):
         return 'F52-group-object-keys-by-str'
     return None
